@@ -415,9 +415,21 @@ def _restore_rules(db: DB, rep: Report, hm) -> None:
             return True
         if isinstance(c.parent, ast.Assign) and isinstance(c.parent.targets[0], ast.Name):
             nm = c.parent.targets[0].id
-            return any(isinstance(x, ast.Call) and isinstance(x.func, ast.Attribute) and x.func.attr == "add"
-                       and any(isinstance(a, ast.Name) and a.id == nm for a in x.args)
-                       for x in walk_no_nested(mf.node))
+            if any(isinstance(x, ast.Call) and isinstance(x.func, ast.Attribute) and x.func.attr == "add"
+                   and any(isinstance(a, ast.Name) and a.id == nm for a in x.args)
+                   for x in walk_no_nested(mf.node)):
+                return True
+            # `for stmt in (<nm>, ...): footer.add(stmt)`: added through a literal sequence
+            for x in walk_no_nested(mf.node):
+                if isinstance(x, ast.For) and isinstance(x.iter, (ast.Tuple, ast.List)) and \
+                        isinstance(x.target, ast.Name) and \
+                        any(isinstance(e, ast.Name) and e.id == nm for e in x.iter.elts) and \
+                        any(isinstance(s, ast.Expr) and isinstance(s.value, ast.Call) and
+                            isinstance(s.value.func, ast.Attribute) and s.value.func.attr == "add" and
+                            any(isinstance(a, ast.Name) and a.id == x.target.id for a in s.value.args)
+                            for s in x.body):
+                    return True
+            return False
         if isinstance(c.parent, ast.Return):
             return True
         return False
